@@ -138,6 +138,14 @@ front end; `enum+fwsim` executes the emitted sketch on the recording Arduino moc
    these bounded obligations tie "one node" to "a program": the firmware trace of `a; b` is the trace of `a` followed by that of `b`, and a
    command inside a helper, branch or loop behaves as at top level (getter values included).
 
+15. **Seeded generators next to the fixed corpora** (`progs/gen.py`, `progs/gen_dev.py`, `progs/gen_lcd.py`; fixed seeds, so runs are
+   repeatable). Most seeded changes that a bounded obligation missed needed a program *shape* the corpus did not contain; besides adding
+   the shape (as a family), the generators now mix the shapes freely: core programs (helpers with several signatures, comprehensions over
+   three-argument ranges, augmented assignments with conditional / comparison right-hand sides, chained comparisons with calls, tight
+   keywords, header and trailing comments, list append/remove of literals), device programs (random command sequences of one actuator with
+   literal / variable / expression arguments, positional or keyword, under branches, loops, a helper and the main loop) and LCD programs.
+   Quick tiers run 48-60 programs each, thorough tiers 450-600. All are labelled bounded.
+
 ### 12.3 Per property, as built
 
 {per}
@@ -191,6 +199,16 @@ violation. `known_findings.json` is read-only at run time; an entry matches by e
   re-typing finding of C02; the script now uses one variable per type.
 * C02: two multi-signature helper scripts passed a float *literal* to an overloaded helper, which is the recorded C06 finding
   (`dbl(1.5)` is ambiguous in C++); they now pass the value through a variable.
+* delays: the host recorder rounded `sleep(5.55 ms)` to `D:6` while the device truncates to `delay(5)`; the generated device programs
+  (`ramp(1.0, 111)`: 111/20 ms per step) showed the comparison firing on a difference the property explicitly allows ("the same delays up
+  to the device's whole-millisecond rounding (under 1 ms per delay)"). The recorder now reports the exact host delay and two delays agree
+  when they differ by less than 1 ms; a host delay under 1 ms may have no counterpart on the device. The fixed scripts had only used
+  durations divisible by the step count, so the exact comparison had never fired on the pinned tree.
+* a benign rename of the local `src` in `target()` rewrote the string literal `'src'` inside a contract clause (`tmp / 'src' / 'main.cpp'`)
+  and produced a C12 VIOLATION on behaviour-preserving code: the renaming of locals now skips string literals and attribute names.
+* a change that made the emitted helper templates untranslatable (`memcpy` in `__redu_list_assign`) crashed the C09 contract set-up with a
+  Python traceback (exit 1 without a VIOLATION line): set-up failures are now an UNDECIDED/CHECKER-DEFECT verdict, and the executed
+  obligations still run (they report the use-after-free with its input).
 No false alarm was ever recorded as a known finding; no check was loosened to pass.
 
 ### 12.6 Genuine defects of the pinned tree
